@@ -27,7 +27,8 @@
 (*   ce p        Commit completed           ab p       Abort called                       *)
 (*   fd p m      the environment put m into the Go channel read by p (channel flavour)    *)
 (*   qs p        quiescence: every sender is done and p has drained its mailbox           *)
-(* Flavours: "tcp" and "chan": writes become visible when Commit starts, as one batch;    *)
+(* Flavours: "tcp" and "chan": writes become visible when Commit starts (tcp: as one      *)
+(* contiguous batch; chan: in order);                                                     *)
 (* "relaxed": a write is visible from the moment WriteValue is called (no rollback), a    *)
 (* batch is one message, only sections that commit are in scope.                          *)
 EXTENDS Naturals, Sequences, FiniteSets
@@ -86,10 +87,16 @@ WriteFail(L, p, to, m) ==
          ELSE [L EXCEPT !.q[p][to] = RemoveMsgBatch(@, m), !.abm = @ \cup {m}]
     ELSE [L EXCEPT !.abm = @ \cup {m}]
 
+(* tcp: the writes of the section to one destination become one batch. chan: several     *)
+(* OutputChans may feed one Go channel, whose values other writers can interleave, so only *)
+(* per-link order is claimed: every value is a batch of its own.                           *)
+Singles(ms) == [i \in 1..Len(ms) |-> [ms |-> <<ms[i]>>, st |-> "ok"]]
 CommitStart(L, p) ==
     LET pub == [to \in Nodes |->
                   LET b == MsgsOf(SelectTo(L.ob[p], to)) IN
-                  IF b = <<>> THEN L.q[p][to] ELSE Append(L.q[p][to], [ms |-> b, st |-> "ok"])]
+                  IF b = <<>> THEN L.q[p][to]
+                  ELSE IF L.fl = "chan" THEN L.q[p][to] \o Singles(b)
+                  ELSE Append(L.q[p][to], [ms |-> b, st |-> "ok"])]
     IN [L EXCEPT !.q[p] = pub, !.ob[p] = <<>>, !.inf[p] = <<>>]
 
 AbortCall(L, p) ==
